@@ -218,7 +218,7 @@ func c04(tier string) []*explore.Scenario {
 		}
 		out = append(out, withConfig([]string{"via-rewriting-proxy", "demux+chain", "services+interceptors"}, c04EndToEnd(kind, false))...)
 	}
-	for _, way := range []string{"first-message", "sendheader", "with-trailer", "concurrent-sendheader", "concurrent-setheader"} {
+	for _, way := range []string{"first-message", "sendheader", "with-trailer", "concurrent-sendheader", "concurrent-setheader", "sendheader-nil-late"} {
 		out = append(out, c04HeaderRace(way, 2))
 	}
 	// finer granularity (a scheduling point after every Unlock as well): SendHeader racing the first message, with and
@@ -504,6 +504,16 @@ func c04HeaderRace(way string, bound int) *explore.Scenario {
 					setOK = ss.SetHeader(metadata.MD{"late": {"v"}}) == nil
 					<-done
 					ss.SendMsg(env.S("x"))
+				case "sendheader-nil-late":
+					// the "flush headers" idiom and empty metadata, used after the headers have left (each call may be
+					// refused; none may put anything on the wire)
+					ss.SetHeader(hdr)
+					ss.SendMsg(env.S("x"))
+					ss.SendHeader(nil)
+					ss.SetHeader(nil)
+					ss.SendMsg(env.S("y"))
+					ss.SendHeader(metadata.MD{})
+					ss.SetTrailer(nil)
 				case "sendheader":
 					ss.SendHeader(hdr)
 					ss.SendMsg(env.S("x"))
@@ -525,6 +535,7 @@ func c04HeaderRace(way string, bound int) *explore.Scenario {
 			var herr error
 			hdone := false
 			vsched.GoNamed("header", func() { got, herr = cs.Header(); hdone = true })
+			vsched.GoNamed("trailer-early", func() { _ = cs.Trailer() }) // (allowed at any time; what it returns before the end is not judged)
 			vsched.GoNamed("receiver", func() { env.CClose(r, cs); env.CRecvAll(r, cs); r.CDone = true })
 			vsched.Quiesce()
 			if !hdone || !r.CDone {
